@@ -133,7 +133,7 @@ func hostileFor(r *Rng, cur any) any {
 		int64(-1), int64(0), int64(2147483648), int64(9223372036854775807), RawScalar("-9223372036854775808"),
 		true, nil, []any{}, OM{}, []any{int64(1), "a"}, OM{{"a", int64(1)}}, []any{[]any{}}, RawScalar("!!binary AAAA"), RawScalar("&a *a"), RawScalar("[*a]")}
 	oids := []any{"1.2.99999999999999999999", "2.5.29.99999999999999999999999999999", "9.9.9", "1", "1.2", "0.40.1", "2.999999999999.1", "1.2.3." + strings.Repeat("1.", 3000) + "1",
-		"1.2.-3", "1..2", "00.01.002", "3.1.1", "1.40.1", "7", "999.1.1.1", "1.2.3.4.5", "256.256.256.256", "1.2.3.", ".1.2.3", "1.2.3", "0.0.0.0", "18446744073709551616.1", "1.18446744073709551616", "1.2.4294967296", "1.2.9223372036854775808"}
+		"1.2.-3", "1..2", "00.01.002", "3.1.1", "1.40.1", "7", "999.1.1.1", "1.2.3.4.5", "256.256.256.256", "1.2.3.", ".1.2.3", "1.2.3", "0.0.0.0", "::1", "2001:db8::1", "::ffff:1.2.3.4", "fe80::1%eth0", "1.2.3.4/24", "01.02.03.04", "+1.2.3.4", "1.2.3.4 ", "18446744073709551616.1", "1.18446744073709551616", "1.2.4294967296", "1.2.9223372036854775808"}
 	dates := []any{"2030-02-30", "1950-13-01", "0000-00-00", "9999-12-31", "2030-00-10", "2030-10-00", "2030-19-39", "0001-01-01", "1969-12-31", "2038-01-19", "2262-04-12", "2030-1-1"}
 	b64s := []any{"!binary:", "!binary:====", "!binary:A", "!binary:QUJD*", "!binary:AAA", "x!binary:QQ==", "!binary:" + strings.Repeat("QUJD", 20000), "!null", "!empty", "hash", "!emptyx", "!binary:QQ==\n", "!binary: QQ=="}
 	durs := []any{"99999999999999999999y", "0y0m0d", "y", "5x", "1y1y", "-1y", "9223372036854775807d", "2147483648m", "1d1y"}
@@ -305,6 +305,19 @@ func genC20Corrupt(r *Rng) *Plan {
 			files = append(files, p.Path())
 		}
 		g.P.Meta["base"] = "forest"
+	}
+	if r.Chance(1, 4) {
+		deg := map[string]string{"empty.yaml": "", "sep.yaml": "---\n", "nulldoc.yml": "null\n", "tab.json": "\t", "twodocs.yaml": "version: 1\nsubject: CN=a\n---\nversion: 1\nsubject: CN=b\n",
+			"sameprof.yaml": "version: 1\nname: root\n", "bom.yaml": "\xef\xbb\xbfversion: 1\nsubject: CN=bom\n", "anchor.yaml": "a: &a [*a]\n", "deep.json": strings.Repeat("[", 2000) + strings.Repeat("]", 2000)}
+		var dn []string
+		for k := range deg {
+			dn = append(dn, k)
+		}
+		sort.Strings(dn)
+		for i := 0; i < 2; i++ {
+			nm := Pick(r, dn)
+			g.P.Add(Op{K: "put-file", Path: nm, Data: deg[nm]})
+		}
 	}
 	if r.Chance(5, 6) {
 		g.P.Add(Op{K: "run", Flags: DefaultFlags, Tags: []string{"setup"}})
